@@ -224,8 +224,13 @@ func (w *world) abstractWrite(wr write) ([]string, bool) {
 		case kHeadB:
 			out = append(out, fmt.Sprintf("WHeadB %d", w.bid(e.Hash)))
 			sw = true
-		case kDel, kUncan:
-			panic("c11: a block, header, receipt or canonical entry was deleted during an import")
+		case kUncan:
+			// never done by the import paths of the code as it is: a comparable write for
+			// the model (which never issues it) and a head-switch element for the oracle
+			out = append(out, fmt.Sprintf("WUncanon %d", e.Num))
+			sw = true
+		case kDel:
+			w.deleted++ // reported as an oracle hit by run()
 		}
 	}
 	return out, sw
@@ -565,6 +570,10 @@ func (w *world) run(c Case, res *vf.Result, hits *[]interface{}) ([]stepRes, []d
 			mids = append(mids, mid)
 		}
 		db.log, db.snaps = nil, nil
+		if w.deleted > 0 {
+			addHit("import deleted a stored header, body or receipt", j, 0, fmt.Sprint(w.deleted, " deletions"))
+			w.deleted = 0
+		}
 		prevObs := lastObs
 		sr.Obs = w.abstractDB(db.dump(), bc.CurrentBlock().Hash())
 		lastObs = sr.Obs
@@ -1226,9 +1235,88 @@ func randCase(r *vf.Rng, res *vf.Result) Case {
 	return c
 }
 
+// the head moves DOWN and the old branch (or a sibling) is re-adopted above it: trunk
+// A1..An; [A1..Ak, B] with B a sibling of A(k+1) switches to the shorter fork and
+// leaves the number entries k+2..n of the old branch in place (stale, above the head);
+// then a block whose parent is not the head and lies above it is imported while those
+// entries cover the heights in between: A(n+1) on An (direct import, reorg stages
+// A(k+1)..A(n+1) over the stale entries), or C on some Aj (its height is occupied:
+// side-chain path, the stale Aj is the anchor), then more of either.
+func downUpCase(r *vf.Rng, res *vf.Result) Case {
+	var c Case
+	uniq := r.Chance(60)
+	add := func(parent int) int {
+		i := len(c.Tree)
+		s := BlockSpec{Parent: parent, Salt: i + 1}
+		if uniq {
+			s.Txs = append(s.Txs, 1000+i)
+		}
+		if r.Chance(50) {
+			s.Txs = append(s.Txs, 1+r.Intn(3))
+		}
+		c.Tree = append(c.Tree, s)
+		return i
+	}
+	n := 3 + r.Intn(3)
+	p := -1
+	var trunk []int
+	for i := 0; i < n; i++ {
+		p = add(p)
+		trunk = append(trunk, p)
+	}
+	c.Batches = append(c.Batches, trunk)
+	k := r.Intn(n - 2) // B is a sibling of trunk[k+1]: the head drops to height k+2 <= n-1
+	b := add(trunk[k])
+	down := append(append([]int{}, trunk[:k+1]...), b)
+	c.Batches = append(c.Batches, down)
+	if r.Chance(30) && k+3 < n { // one more block on the short fork, still below the old tip
+		b2 := add(b)
+		c.Batches = append(c.Batches, []int{b2})
+	}
+	top := trunk[n-1]
+	for i := 0; i < 1+r.Intn(2) && depthOf(c.Tree, top) < 8; i++ {
+		switch r.Intn(3) {
+		case 0, 1: // extend the old branch beyond its stale tip
+			x := add(top)
+			batch := []int{x}
+			if r.Chance(30) && depthOf(c.Tree, x) < 8 {
+				y := add(x)
+				batch = append(batch, y)
+				x = y
+			}
+			c.Batches = append(c.Batches, batch)
+			top = x
+		default: // a sibling branch from the middle of the stale part
+			j := k + 1 + r.Intn(n-k-1)
+			x := add(trunk[j])
+			batch := []int{x}
+			for depthOf(c.Tree, x) <= n && depthOf(c.Tree, x) < 8 { // long enough to be adopted
+				y := add(x)
+				batch = append(batch, y)
+				x = y
+			}
+			c.Batches = append(c.Batches, batch)
+		}
+	}
+	if r.Chance(30) {
+		c.Batches = append(c.Batches, trunk)
+	}
+	res.Count("tree with forks")
+	res.Count("head lowered, then re-adoption above it case")
+	if uniq {
+		res.Count("tree with pairwise distinct state roots")
+	} else {
+		res.Count("tree with shared state roots")
+	}
+	return c
+}
+
 func randCase0(r *vf.Rng, res *vf.Result) Case {
 	if r.Chance(35) {
 		return forkCase(r, res)
+	}
+	if r.Chance(12) {
+		return downUpCase(r, res)
 	}
 	if r.Chance(6) {
 		return restateCase(r, res)
